@@ -422,6 +422,10 @@ class Case:
         for h in self.holes_in:
             if len(h) < 3 or len(h) > 8: return 'hole-vertex-count-outside-space'
         if self.maxc > 1e6: return 'outside-metre-scale'
+        # "metre-scale coordinates": an outline less than half a metre across (the generator's shrunk family, edges of millimetres to
+        # centimetres) is below the scale at which the crate's absolute tolerances (1e-5 on cross products, 1e-7 on heights) mean
+        # what they are meant to mean; it is not judged (a panic there is still counted, as `panic-outside-space-...`)
+        if max(n23(sub3(q, self.outer_in[0])) for q in self.outer_in) < self.sc.r2(Fraction(1, 2)): return 'below-metre-scale'
         self.N = vector_area2(self.outer_in)
         if self.N == (0, 0, 0): return 'degenerate-outline'
         a = [abs(x) for x in self.N]
